@@ -14,6 +14,9 @@ CACHE = {"omitted": None, "true": True, "false": False}
 STRUCT = {"omitted": None, "true": True, "false": False}
 EXTS = {"omitted": None, "[rs]": ["rs"], "[txt]": ["txt"]}
 LOCKS = {"absent": None, "valid=max+1": 8, "valid-ahead": 100, "corrupt": "next_reference_id: [oops\n", "empty": "",
+         # a valid lock that is long: a comment header of 3 KiB in front of the entry; and one whose number straddles byte 1024
+         "valid-ahead-long-header": "".join("# %s\n" % ("kept by the team, do not edit " * 3) for _ in range(34)) + "next_reference_id: 100\n",
+         "valid-ahead-number-at-1024": "#" + "x" * (1024 - 1 - 1 - len("next_reference_id: 1")) + "\nnext_reference_id: 150\n",
          "git-conflict": "<<<<<<< HEAD\nnext_reference_id: 16\n=======\nnext_reference_id: 18\n>>>>>>> feature\n"}
 TREES = {
     "missing": {"src/a.rs": 'fn a() {\n    info!("[ref: 7] have");\n    info!("need");\n}\n', "src/b.txt": 'fn b() { info!("need in txt"); }\n',
